@@ -1,7 +1,8 @@
 (* C04 Right context gates a match without consuming input. *)
 From LexVerif Require Import Base CharClass RangeMap Regex Spec SpecExec LexSpec Nfa Dfa NfaToDfa NfaSem Codegen
      Runtime ScanIface RulesetSem Driver SpecDef ClassAlgProofs RuntimeProofs RuntimeLemmas ScanOkProofs
-     RulesetSemProofs LexSpecProofs LexSpecFacts SpecInvariants EndToEnd EndToEndModel Instance Harness.
+     RulesetSemProofs LexSpecProofs LexSpecFacts SpecInvariants EndToEnd EndToEndModel Instance Harness
+     GenCode GenCodeProofs GenCodeChecks.
 From LexVerif.Gen Require Import GenTables GenConsts.
 
 (* the generated context function decides "some prefix of the rest, with end-of-input visible,
@@ -19,6 +20,30 @@ Theorem c04_ctx_declarative : forall (benv : builtin_env) ctx rest,
   (forall c, ctx = Some c -> closed c = true) ->
   (ctx_ok benv ctx rest = true <-> ctx_holds benv ctx rest).
 Proof. exact ctx_ok_correct. Qed.
+
+(* the generated right-context functions (`fn <L>_RIGHT_CTX_i(mut input) -> bool`, as syntax trees GenCode.gen_cx,
+   compared by harness/gencode.py with the code the real macro emitted): running them (cx_exec) computes exactly
+   the context decision ctx_run that c04_ctx_function is about, and returns for every input - for every context
+   automaton that passes the executable side conditions (distinct character keys, well-formed range maps,
+   end-of-input transitions into accepting states), and for every context of a compiled well-formed definition *)
+Theorem c04_generated_ctx_function : forall mg d input,
+  ctx_code_ok_b d = true ->
+  (exists fuel, cx_exec fuel (gen_cx mg d) 0 input = Some (ctx_run mg d 0 input)) /\
+  (forall fuel b, cx_exec fuel (gen_cx mg d) 0 input = Some b -> ctx_run mg d 0 input = b).
+Proof. exact ctx_code_ok_b_sound. Qed.
+
+Theorem c04_generated_ctx_compiled : forall benv mg d c rss,
+  benv_wf benv ->
+  compile benv mg d = Ok c ->
+  def_rulesets d = Ok rss ->
+  wf_def benv d = true ->
+  def_chars_ok benv rss ->
+  forall dc, In dc (p_ctxs (c_program c)) ->
+  eoi_targets_accepting dc = true ->
+  forall mg' input,
+    (exists fuel, cx_exec fuel (gen_cx mg' dc) 0 input = Some (ctx_run mg' dc 0 input)) /\
+    (forall fuel b, cx_exec fuel (gen_cx mg' dc) 0 input = Some b -> ctx_run mg' dc 0 input = b).
+Proof. exact generated_ctx_correct_model. Qed.
 
 (* the reference selection is the textbook maximal-munch selection stated with Spec.lang only *)
 Theorem c04_select_is_maximal_munch : forall (benv : builtin_env) rules w r k e,
@@ -113,8 +138,51 @@ Theorem c04_ruleset_sem :
   dfa_closed n d m -> 0 < length d -> dfa_shape_ok d -> ruleset_sem benv crules cidx d.
 Proof. exact ruleset_sem_of_closed_wf_crule. Qed.
 
+(* ------------------------------------------------------------------------------------------
+   The generated code itself. GenCode.v describes the Rust code the macro emits as syntax trees
+   (gen_arms: the arms of `match self.0.__state`, nested for inlined states) and says what running
+   them does (gnext: one call of the generated next()). harness/gencode.py translates the token stream
+   of the REAL macro into these trees on every run and compares them with gen_arms. Running the trees
+   is running the interpreter of Runtime.v, call by call, with the same fuel; hence, for every compiled
+   well-formed definition, the generated code produces the stream of the reference semantics. *)
+Theorem c04_generated_next :
+  forall (width : N -> N) (tab_width : N) (T E U : Type) (prog : program) (actions : nat -> action T E U)
+         (arms : list (option nat * gcode)) (fuel : positive) (l : lexer U) (o : outcome T E) (l' : lexer U),
+  chars_nodup prog ->
+  gen_arms prog = Ok arms ->
+  next width tab_width T E U prog actions fuel l = (o, l') ->
+  o <> OPanic T E TagOutOfFuel ->
+  gnext width tab_width T E U prog actions fuel arms l = (o, l').
+Proof. exact gnext_correct. Qed.
+
+Theorem c04_generated_code_stream :
+  forall benv mg (width : N -> N) tab_width (T E U : Type) (d : def) c rss (actions : nat -> action T E U) arms,
+  benv_wf benv ->
+  compile benv mg d = Ok c ->
+  def_rulesets d = Ok rss ->
+  wf_def benv d = true ->
+  def_chars_ok benv rss ->
+  acts_distinct d ->
+  (forall a v u n, a_switch (actions a v u) = Some n -> n < length (p_switch (c_program c))) ->
+  gen_arms (c_program c) = Ok arms ->
+  forall whole u with_str,
+    Forall (fun ch => is_scalar ch = true) whole ->
+    (with_str = false -> RuntimeProofs.text_blind T E U actions) ->
+  forall n fuel, enough_fuel U fuel (lexer_new U whole u with_str) ->
+  exists r, spec_run benv width tab_width T E U rss actions n (s_init U whole u) r /\
+            grun_lexer width tab_width T E U (c_program c) actions arms n fuel (lexer_new U whole u with_str)
+              = map (outcome_of T E) r.
+Proof. exact generated_code_correct_model. Qed.
+
+(* the side condition of c04_generated_next is decided by a boolean the check evaluates on the automata
+   the real macro dumped *)
+Theorem c04_generated_code_side_condition : forall p, chars_nodup_b p = true -> chars_nodup p.
+Proof. exact chars_nodup_b_sound. Qed.
+
 Print Assumptions c04_ctx_function.
 Print Assumptions c04_ctx_declarative.
+Print Assumptions c04_generated_ctx_function.
+Print Assumptions c04_generated_ctx_compiled.
 Print Assumptions c04_select_is_maximal_munch.
 Print Assumptions c04_select_none.
 Print Assumptions c04_select_complete.
@@ -122,3 +190,6 @@ Print Assumptions c04_next_simulates.
 Print Assumptions c04_stream.
 Print Assumptions c04_compiled_scan_ok.
 Print Assumptions c04_ruleset_sem.
+Print Assumptions c04_generated_next.
+Print Assumptions c04_generated_code_stream.
+Print Assumptions c04_generated_code_side_condition.
